@@ -219,15 +219,29 @@ def linNode (inp : RunInput) (n : Name) (nd : Node) : Nat :=
   todoOf nd + 5 * (nd.waitRun.length + nd.waitRunCalc.length) + posOf nd.pc +
   setupTerm nd.pc (inp.setup n).length + (if nd.waitSelect = true then 5 else 0)
 
+/-- rank of the dispatcher's last answer while the runner waits for it: running, a yielded node (the rank the generator
+    lost at `yield this_task` is kept here until `select_task` has looked at the node), ended -/
+def wRank : Option DOut → Nat
+  | none => 3
+  | some (.node _) => 9
+  | some _ => 2
+
+def loopK : Ret → Nat
+  | .startLoop k => k
+  | .feedLoop k => k
+
 def rOf : RPC → Option DOut → Nat
   | .halted, _ => 0
   | .fin, _ => 1
-  | .sWait, none => 3
-  | .sWait, some (.node _) => 9
-  | .sWait, some _ => 2
+  | .sWait, o => wRank o
   | .sTop _, _ => 4
   | .sExec _, _ => 5
-  | _, _ => 0
+  | .pJoin, _ => 2
+  | .pTop, _ => 3
+  | .gRet _ ret, _ => 20 * loopK ret + 11
+  | .gWait ret, o => 20 * loopK ret + 10 + wRank o
+  | .gLoop _ ret, _ => 20 * loopK ret + 14
+  | .gEntry _ ret, _ => 20 * loopK ret + 15
 
 def restOf (s : Sys) : Nat :=
   5 * s.ready.length + s.toRun.length + (if s.cur.isSome = true then 4 else 0) + rOf s.rpc s.susp
